@@ -26,6 +26,8 @@ type seedResult struct {
 	Detail string `json:"detail,omitempty"`
 }
 
+var sweepLimit int
+
 func main() {
 	propID := flag.String("prop", "", "property id (C01..C19)")
 	tier := flag.String("tier", "quick", "quick|thorough")
@@ -36,6 +38,7 @@ func main() {
 	listRules := flag.Bool("list", false, "list rules and exit")
 	verbose := flag.Bool("v", false, "print every obligation")
 	noSeeds := flag.Bool("noseeds", false, "skip self-test seeds")
+	flag.IntVar(&sweepLimit, "sweep", -1, "mutation sweep: number of sampled mutants (default: 0 in quick, 400 in thorough)")
 	flag.Parse()
 
 	if *listRules {
@@ -167,6 +170,15 @@ func run(propID, tier, root, verif, patchFile, onlyRule string, verbose, noSeeds
 		seededResults = runSeeded(prog, propID, root, verif, selected, all)
 	}
 
+	// thorough tier: mutation sweep over the anchored functions (informational)
+	var sweep *sweepResult
+	if n := sweepLimit; !noSeeds && patchFile == "" && (n > 0 || (n < 0 && tier == "thorough")) {
+		if n < 0 {
+			n = 400
+		}
+		sweep = runSweep(prog, propID, selected, all, findings, n, seedEnv)
+	}
+
 	// report
 	var rep strings.Builder
 	fmt.Fprintf(&rep, "pgocheck property=%s tier=%s root=%s packages=%d rules=%d obligations=%d\n",
@@ -193,6 +205,10 @@ func run(propID, tier, root, verif, patchFile, onlyRule string, verbose, noSeeds
 	}
 	for _, s := range seededResults {
 		fmt.Fprintf(&rep, "seeded change %s: %s %s\n", s.Name, s.Status, s.Detail)
+	}
+	if sweep != nil {
+		fmt.Fprintf(&rep, "mutation sweep: %d anchored functions, %d candidate mutants, %d sampled: %d do not compile, %d killed, %d survived (kill rate of compiling mutants %.0f%%)\n",
+			sweep.AnchoredFunctions, sweep.Candidates, sweep.Sampled, sweep.NotCompiling, sweep.Killed, sweep.Survived, 100*sweep.KillRate)
 	}
 	if verbose {
 		for _, o := range all {
@@ -268,6 +284,9 @@ func run(propID, tier, root, verif, patchFile, onlyRule string, verbose, noSeeds
 		"assumptions": info.Assumptions,
 		"wall_s":      time.Since(start).Seconds(),
 		"violations":  len(violations),
+	}
+	if sweep != nil {
+		ev["coverage"].(map[string]any)["mutation_sweep"] = sweep
 	}
 	if info.Level == "translation_validation" {
 		cov := ev["coverage"].(map[string]any)
